@@ -630,8 +630,10 @@ func runFT[T comparable](p FPlan, val T) (vk.Outcome, error) {
 						tm := time.AfterFunc(time.Duration(wt.Timeout)*time.Millisecond, c)
 						cancel = func() { tm.Stop(); c() }
 					}
-					if wt.Detached {
+					if wt.Detached && i%2 == 0 {
 						ctx = sk.Detach(ctx)
+					} else if wt.Detached {
+						ctx = sk.DetachValue(ctx)
 					}
 					v, err = f.WaitContext(ctx)
 					cancel()
